@@ -238,7 +238,7 @@ Section Parse.
             match sub with
             | Some t => POk (TV (c_name c) fs (Some (Some t)))
             | None => if optional then POk (TV (c_name c) fs (Some None))
-                      else PErr (EMissing [60;67;79;77;77;65;78;68;62])   (* <COMMAND> *)
+                      else PErr (EMissing SUB_NAME_REQ)   (* <COMMAND> *)
             end
           end
         end
@@ -308,27 +308,27 @@ Definition option_lines (ds : list argdecl) : list (list N * list N) :=
                      | KOpt l s => [(options_names l s ++ [32] ++ bracket (a_optional d) (a_valname d), odefault (a_help d))]
                      | KPos => []
                      end) ds
-  ++ [([45;104;44;32;45;45;104;101;108;112], [80;114;105;110;116;32;104;101;108;112])].   (* "-h, --help", "Print help" *)
+  ++ [(H_HELP_OPT_NAMES, H_HELP_OPT_TEXT)].   (* "-h, --help", "Print help" *)
 
 Definition usage_hops (parent : list hop) (c : cmddecl) : list hop :=
-  title_hops [85;115;97;103;101;58] ++ [HWrite [32]] ++ parent ++ [HWrite (c_name c)] ++
+  title_hops H_USAGE ++ [HWrite [32]] ++ parent ++ [HWrite (c_name c)] ++
   (if existsb (fun d => match a_kind d with KPos => false | _ => true end) (c_args c)
-   then [HWrite [32;91;79;80;84;73;79;78;83;93]] else []) ++
+   then [HWrite H_OPTIONS_TAG] else []) ++
   (match c_sub c with
-   | Some (true, _, _) => [HWrite [32;91;67;79;77;77;65;78;68;93]]
-   | Some (false, _, _) => [HWrite [32;60;67;79;77;77;65;78;68;62]]
+   | Some (true, _, _) => [HWrite H_SUB_OPT]
+   | Some (false, _, _) => [HWrite H_SUB_REQ]
    | None => flat_map (fun d => [HWrite [32]; HWrite (full_name d)]) (positionals (c_args c))
    end) ++ [HWriteln []].
 
 Definition args_help_hops (c : cmddecl) : option (list hop) :=
   match positionals (c_args c) with
   | [] => None
-  | ps => Some (title_hops [65;114;103;117;109;101;110;116;115;58;10] ++
+  | ps => Some (title_hops H_ARGUMENTS ++
                 flat_map (fun d => list_element_hops (full_name d) (odefault (a_help d)) (max_len (map full_name ps))) ps)
   end.
 Definition options_help_hops (c : cmddecl) : list hop :=
   let ls := option_lines (c_args c) in
-  title_hops [79;112;116;105;111;110;115;58] ++ [HWriteln []] ++
+  title_hops H_OPTIONS ++ [HWriteln []] ++
   flat_map (fun p => list_element_hops (fst p) (snd p) (max_len (map fst ls))) ls.
 
 Fixpoint join_blocks (bs : list (list hop)) : list hop :=
